@@ -57,6 +57,13 @@ func (e *Engine) generate(completions Values) {
 func (e *Engine) setPrefix(completions Values) {
 	switch completions.PREFIX {
 	case "":
+		// At the beginning of the line there is no word before
+		// the cursor: what is under and after it is not ours.
+		if e.cursor.Pos() == 0 {
+			e.prefix = ""
+			break
+		}
+
 		// Select the character just before the cursor.
 		cpos := e.cursor.Pos() - 1
 		if cpos < 0 {
